@@ -1,5 +1,5 @@
 (** C07 — finalization: dead means unreachable, resurrection holds for the cycle. *)
-From GA Require Import Model.Spec Proofs.Inv Proofs.InvMark Proofs.InvSweep Proofs.Final Proofs.InvWorld Proofs.Safety Proofs.ExactDead.
+From GA Require Import Model.Spec Proofs.Inv Proofs.InvMark Proofs.InvSweep Proofs.Final Proofs.InvWorld Proofs.Safety Proofs.ExactDead Proofs.Revive.
 Local Open Scope nat_scope.
 
 (** When a MarkedArena is handed out (phase Mark, no gray work, root traced), every strongly
@@ -31,6 +31,28 @@ Theorem C07_marked_closure :
     exists ox, get c x = Some ox /\ col ox = Black.
 Proof. exact marked_closure. Qed.
 Print Assumptions C07_marked_closure.
+
+(** "Resurrecting a dead but undestructed object guarantees that it and everything strongly reachable from
+    it are not destructed in this collection cycle even if the pointer is stored nowhere": a marked (gray
+    or black) object -- which is what resurrect makes of its target, [C07_resurrect_marks] -- is neither
+    destructed nor released by any collection call that stays within the cycle (every entry point except
+    collect_debt, which may legitimately run on into the NEXT cycle), for every debt oracle, increment size
+    and stopping point; and once marking is complete the same holds for everything strongly reachable
+    from it, reachable from the root or not. *)
+Theorem C07_marked_survives_cycle :
+  forall dec c ru st c' evs oc x o,
+    Inv None c -> quiescent c -> ph c = Mark -> get c x = Some o -> dark (col o) -> stops_in_cycle st = true ->
+    do_collection dec c ru st None = (c', evs, oc) -> forall ev, In ev evs -> ev_id ev <> x.
+Proof. exact marked_survives_cycle. Qed.
+Print Assumptions C07_marked_survives_cycle.
+
+Theorem C07_marked_closure_survives_cycle :
+  forall dec c ru st c' evs oc x o y,
+    Inv None c -> quiescent c -> is_marked c = true -> get c x = Some o -> col o = Black -> reach_from c x y ->
+    stops_in_cycle st = true ->
+    do_collection dec c ru st None = (c', evs, oc) -> forall ev, In ev evs -> ev_id ev <> y.
+Proof. exact marked_closure_survives_cycle. Qed.
+Print Assumptions C07_marked_closure_survives_cycle.
 
 (** Reviving a dead object makes the arena report Marking until marking is finished again. *)
 Theorem C07_revive_marking :
